@@ -258,22 +258,34 @@ def parse_lean(ans, crys, dim):
     return out
 
 
-def extrapolate(calc, betafree, sizes):
-    """Extrapolate n -> infinity from three sizes with L(n) = Linf + b/n^d + c/n^(d+2); the error estimate is the
-    larger of the difference to the two-point (1/n^d only) extrapolation from the two largest sizes and 5% of the
-    finite-size correction removed from the largest cell.
-    Returns (L tuple, error estimates, raw values)."""
-    dim = calc.crys.dim
-    vals = [chain_L(calc, betafree, n) for n in sizes]
+def _extrap3(vals, sizes, dim):
     A = np.array([[1.0, 1.0 / n ** dim, 1.0 / n ** (dim + 2)] for n in sizes])
     Ainv = np.linalg.inv(A)
-    out, err = [], []
     x = [1.0 / n ** dim for n in sizes]
+    out = []
     for k in range(4):
         a, b, c = vals[0][k], vals[1][k], vals[2][k]
         e3 = Ainv[0, 0] * a + Ainv[0, 1] * b + Ainv[0, 2] * c
         e2 = c + (c - b) * x[2] / (x[1] - x[2])
-        # error estimate: the two extrapolations can cross by accident, so never trust less than 5% of the
-        # finite-size correction that was removed from the largest cell
-        out.append(e3); err.append(max(np.abs(e3 - e2).max(), 0.05 * np.abs(c - e3).max()))
+        out.append((e3, e2, c))
+    return out
+
+
+def extrapolate(calc, betafree, sizes):
+    """Extrapolate n -> infinity with L(n) = Linf + b/n^d + c/n^(d+2) fitted to the three largest sizes.  Error estimate: the largest
+    of (i) the difference to the two-point (1/n^d only) extrapolation from the two largest sizes, (ii) 5% of the finite-size
+    correction removed from the largest cell (the two extrapolations can cross by accident), and - when four sizes are given -
+    (iii) the difference to the same three-point fit on the three smaller sizes (anisotropic rates converge with a different
+    effective power, which only a second fit reveals).
+    Returns (L tuple, error estimates, raw values)."""
+    dim = calc.crys.dim
+    vals = [chain_L(calc, betafree, n) for n in sizes]
+    last = _extrap3(vals[-3:], sizes[-3:], dim)
+    prev = _extrap3(vals[:3], sizes[:3], dim) if len(sizes) >= 4 else None
+    out, err = [], []
+    for k in range(4):
+        e3, e2, c = last[k]
+        e = max(np.abs(e3 - e2).max(), 0.05 * np.abs(c - e3).max())
+        if prev is not None: e = max(e, np.abs(e3 - prev[k][0]).max())
+        out.append(e3); err.append(e)
     return tuple(out), tuple(err), vals
